@@ -119,6 +119,21 @@ CLAIMED = {
        "not modelled; fobj.FaultFile implements the same semantics for the real code.",
   technique="Lean 4 proof (FileM programs under a capacity environment; rollback and enlarge-first theorems) + capacity sweep on the real savers",
   ref="DESIGN.md §5 C19"),
+ "C06": dict(
+  text="Lean 4 theorems (Props/C06.lean) over FileM programs in ARBITRARY fault environments (any exception at any file-object call, short reads, "
+       "finite capacity): primitives_raise_only - resize_file/move_bytes/insert_bytes/delete_bytes/resize_bytes/read_full/get_size raise nothing but "
+       "the injected exception, ENOSPC, ValueError (argument check) or IOError (read_full) by a compositional Raises judgement (one rule per "
+       "construct incl. try/except, try/finally, convert_error); primitives_ok_means_no_fault - a normal return means no injected fault fired "
+       "(OkAgree judgement: nothing is swallowed; resize_file's handler re-raises); for FLAC save as an entry point (convert_error around "
+       "FLAC._save): only MutagenError (or ValueError) leaves under I/O faults, and a normal return leaves exactly the rendering of the saved "
+       "layout. Partial: the other savers/loaders are not modelled; for them a fault is injected at every file-object call index and a short "
+       "read at read calls for load / growing save / shrinking save / delete / module delete on the real code (exception class, close() not "
+       "called, reload equals saved state after a normal return).",
+  note="Trusted: Lean kernel; standard axioms; fobj.FaultFile as the fault injector; escape sites and undetected-fault sites are keyed by "
+       "(exception class, module, function) of the mutagen frame - known_findings.json lists the open ones (short reads taken as 'no tag' in "
+       "several parsers, verify_fileobj's ValueError).",
+  technique="Lean 4 proof (compositional exception-class and no-swallow judgements over a FileM effect model) + exhaustive fault injection on the real code",
+  ref="DESIGN.md §5 C06"),
 }
 
 PENDING_REASON = "not claimed yet in this revision: the Lean model and theorems for this property are still being built (see DESIGN.md §7 build order); it is not 'not applicable' in principle"
